@@ -322,10 +322,43 @@ class Ctx:
             self.samples.append(s)
 
 
+# tables read by the model commands a property's check sends to the driver (lexing: Tokens; parsing: Tokens + Prec; ...)
+DRIVER_TABLES = {'C01': {'Tokens', 'Prec'}, 'C04': {'Tokens', 'Prec'}, 'C05': {'Tokens'}, 'C08': {'Tokens', 'Prec'}, 'C09': {'Tokens', 'Prec'},
+                 'C10': {'Tokens', 'Prec'}, 'C14': {'Tokens'}, 'C15': {'Tokens', 'Legend'}}
+
+
+def tables_of(prop):
+    """the generated tables a property depends on: those imported (transitively) by PlcProofs/Props/<prop>.lean plus
+    those its model commands read"""
+    out = set(DRIVER_TABLES.get(prop, ()))
+    seen, todo = set(), [f'PlcProofs.Props.{prop}']
+    while todo:
+        mod = todo.pop()
+        if mod in seen: continue
+        seen.add(mod)
+        path = os.path.join(LEAN, *mod.split('.')) + '.lean'
+        if not os.path.exists(path): continue
+        with open(path, encoding='utf-8') as f:
+            for line in f:
+                m = re.match(r'import (\S+)', line)
+                if m:
+                    if m.group(1).startswith('PlcModel.Gen.'): out.add(m.group(1).split('.')[-1])
+                    elif m.group(1).startswith('Plc'): todo.append(m.group(1))
+                elif line.strip() and not line.startswith('--') and not line.startswith('/-'):
+                    if not line.startswith('import'): break
+    return out
+
+
 def prepare(ctx, need_harness=True, need_binary=False, need_model=True, extra_targets=()):
     """steps 1-3; fills ctx.obligations / ctx.broken"""
     prop = ctx.prop
+    relevant = tables_of(prop)
     for name, ok, msg in regen_tables():
+        # a table is an obligation of the properties whose theorems or model runs read it (a table that cannot be
+        # re-extracted keeps its last content, so the other properties still build)
+        if name not in relevant and name != 'translator':
+            if not ok: ctx.notes.append(f'translator:{name} FAILED (not read by {prop}): {msg[:200]}')
+            continue
         ctx.obligations.append(f'translator:{name}')
         if not ok:
             ctx.broken.append((f'translator:{name}', msg))
